@@ -170,6 +170,8 @@ harness!(rt_drain_filter__s8_4a_m0111_end, rt_drain_filter, S8_4A, (0b0111, END,
 harness!(rt_drain_filter__s8_4a_m0110_end, rt_drain_filter, S8_4A, (0b0110, END, false));
 harness!(rt_drain_filter__s8_4a_m1010_j1, rt_drain_filter, S8_4A, (0b1010, 1, false));
 harness!(rt_drain_filter__s8_4a_m1100_j1, rt_drain_filter, S8_4A, (0b1100, 1, false));
+harness!(rt_drain_filter__s8m0_4a_m01_j1, rt_drain_filter, S8M0_4A, (0b01, 1, false));
+harness!(rt_drain_filter__s8m0_4a_m11_end, rt_drain_filter, S8M0_4A, (0b11, END, false));
 harness!(rt_drain_filter__s8_4a_m1111_j0, rt_drain_filter, S8_4A, (0b1111, 0, false));
 harness!(rt_drain_filter__s8_4a_m1101_j2f, rt_drain_filter, S8_4A, (0b1101, 2, true));
 harness!(rt_drain_filter__s8_4a_m1111_j3f, rt_drain_filter, S8_4A, (0b1111, 3, true));
